@@ -70,7 +70,9 @@ def run(ctx):
     chk.rule("R08.1", "comma step: owner token replaced by `(`; `)`, the owner, `(` appended in this order")
     chk.rule("R08.2", "comma step never overwrites the record of owed closing parentheses (each guarding variable is a function of its previous value)")
     chk.rule("R08.3", "every additional `)` consumes from the record of owed closing parentheses")
-    chk.rule("R08.4", "a comma without an owning operator ends in Err")
+    chk.rule("R08.4", "a comma without an owning operator ends in Err; a comma with one never does")
+    chk.rule("R08.5", "when the owed `)` falls due: recorded depth = depth after the comma step - 1; emission iff the record's top EQUALS the depth after the `)` just read; every emission lowers the depth by one; `(` raises and `)` lowers the depth by exactly one")
+    chk.rule("R08.6", "owner search: scanning backwards with +1 per `(` and -1 per `)`, the first operator at running count 1; its index converted back from the reversed position")
     tk = fb.find_bodies(lambda b: b["kind"] == "Fn" and b["path"].endswith("parser::tokenize_and_analyze"))
     owner = [s["path"] for s in fb.raw["sigs"] if len(s["inputs"]) == 1 and "ParsedToken<" in s["inputs"][0] and s["output"].startswith("std::option::Option<usize>")]
     if len(tk) != 1 or len(owner) != 1:
@@ -91,11 +93,16 @@ def run(ctx):
         for t in loops.trips(p, b["path"], 0):
             if t.general:
                 ch = _char_of(t)
-                if ch in (",", ")"):
+                if ch in (",", ")", "("):
                     key = (t.header, ch, tuple((rel.cstr(d[1]), str(d[2])) for d in t.decisions), t.post is not None)
                     trips.setdefault(key, (t, p))
-    commas = [(t, p) for (h, ch, _, done), (t, p) in trips.items() if ch == ","]
-    closes = [(t, p) for (h, ch, _, done), (t, p) in trips.items() if ch == ")" and done]
+    # the loop over the characters is the one whose trips handle the literals (outermost such header)
+    from collections import Counter
+    hc = Counter(h for (h, ch, _, done) in trips)
+    Hmain = min(hc) if hc else None
+    commas = [(t, p) for (h, ch, _, done), (t, p) in trips.items() if ch == "," and h == Hmain]
+    closes = [(t, p) for (h, ch, _, done), (t, p) in trips.items() if ch == ")" and done and h == Hmain]
+    opens = [(t, p) for (h, ch, _, done), (t, p) in trips.items() if ch == "(" and done and h == Hmain]
     if not commas or not closes:
         chk.unrecognised("R08.1", "trips", "no general trip for ',' (%d) or ')' (%d) found in the tokenizer loop" % (len(commas), len(closes)), where)
         return
@@ -163,9 +170,14 @@ def run(ctx):
         none = ("None" in found) or any(d[2] == "err" for d in tried)
         if t.post is None:
             # the path ended inside the trip
-            if none and not (p.status == "return" and isinstance(p.result, Variant) and p.result.variant == "Err"):
+            is_err = p.status == "return" and isinstance(p.result, Variant) and p.result.variant == "Err"
+            if none and not is_err:
                 ok4 = False
                 chk.violation("R08.4", "no-owner", "a comma for which no owning operator is found does not end in Err", where)
+            if some and not none and is_err:
+                ok4 = False
+                chk.violation("R08.4", "rejects-call", "the comma step can end in Err although the owning operator was found: a well-formed call is rejected (%s)" % [
+                    (rel.cstr(d[1])[:80], d[2]) for d in t.decisions if "Iterator::next(" not in rel.cstr(d[1])][-2:], where)
             continue
         if none or not some:
             ok4 = False
@@ -211,3 +223,132 @@ def run(ctx):
     if ok4:
         chk.ok("R08.4", "comma without owner => Err", "", where)
     chk.sample({"guards_of_additional_close": gnames, "comma_trips": len(commas), "close_trips": len(closes)})
+
+    # ---- R08.5 due depth (for the representation `running depth` + `stack of due depths`)
+    depth = [L for L in guards if L not in consumed_vars]
+    stack = [L for L in consumed_vars]
+    if len(depth) == 1 and len(stack) == 1:
+        D, S = depth[0], stack[0]
+        probs = []
+        for t, p in commas:
+            if t.post is None:
+                continue
+            pushes = [x for k, x in t.items if k == "e" and x[0] == "call" and x[1].endswith("::push") and S in _loop_syms(x[2][0])]
+            if len(pushes) != 1:
+                probs.append("the comma step pushes %d due depths" % len(pushes))
+                continue
+            from analysis import dom as _dom
+            lv = _dom.linear(_dom.parse_term(rel.cstr(pushes[0][2][1]).replace("binop:", "")))
+            ld = _dom.linear(_dom.parse_term(rel.cstr(t.post[D]).replace("binop:", "")))
+            if lv is None or ld is None:
+                probs.append("due depth / depth after the comma are not linear in the depth: %s / %s" % (rel.cstr(pushes[0][2][1])[:60], rel.cstr(t.post[D])[:60]))
+                continue
+            diff = dict(ld)
+            for k2, v2 in lv.items():
+                diff[k2] = diff.get(k2, 0) - v2
+            diff = {k2: v2 for k2, v2 in diff.items() if v2}
+            if diff != {"1": 1}:
+                probs.append("the recorded due depth is not (depth after the comma step) - 1: depth' - due = %s" % diff)
+        for t, p in opens:
+            if rel.cstr(t.post[D]) != "binop:Add(%s, 1_i32)" % rel.cstr(t.pre[D]) or (S in t.post and t.post[S].key() != t.pre[S].key()):
+                probs.append("`(` does not raise the depth by exactly one (or touches the record)")
+        n_emit = 0
+        for t, p in closes:
+            cur = t.pre[D]
+            first = True
+            for k, x in t.items:
+                if k == "d":
+                    c = rel.canon(x[1])
+                    if S in _loop_syms(c) or "::last(" in rel.cstr(c):
+                        # the test that decides about an emission
+                        is_eq = isinstance(c, App) and c.fn in ("std::cmp::PartialEq::eq", "binop:Eq")
+                        if not is_eq:
+                            probs.append("the emission test is not an equality: %s" % rel.cstr(c)[:90])
+                            continue
+                        other = [a for a in c.args if S not in _loop_syms(a) and "::last(" not in rel.cstr(a)]
+                        if first:
+                            want = "binop:Sub(%s, 1_i32)" % rel.cstr(t.pre[D])
+                            got = rel.cstr(other[0]) if other else "?"
+                            got = re.sub(r"^Option::Some\{0: (.*)\}$", r"\1", got)
+                            if got != want:
+                                probs.append("the first emission test after `)` compares the record with %s, expected the depth after the `)` (%s)" % (got[:60], want[:60]))
+                            first = False
+                elif x[0] == "call" and x[1].endswith("::pop"):
+                    n_emit += 1
+        # every emission lowers the depth by one (the emitting loop's own trips)
+        for p in allp:
+            for t2 in loops.trips(p, b["path"], 0):
+                if t2.header == Hmain or t2.post is None:
+                    continue
+                emits = any(k == "e" and x[0] == "call" and x[1].endswith("::pop") for k, x in t2.items)
+                if emits and (D not in t2.pre or D not in t2.post):
+                    probs.append("an emission of the additional `)` leaves the depth unchanged")
+                    continue
+                if emits:
+                    ca, cb = rel.const_int(t2.pre[D]), rel.const_int(t2.post[D])
+                    lowered = (cb == ca - 1) if (ca is not None and cb is not None) else rel.cstr(t2.post[D]) == "binop:Sub(%s, 1_i32)" % rel.cstr(t2.pre[D])
+                    if not lowered:
+                        probs.append("an emission of the additional `)` does not lower the depth by one (depth becomes %s)" % rel.cstr(t2.post[D])[:60])
+        if not n_emit:
+            probs.append("no emission observed")
+        if probs:
+            chk.violation("R08.5", "due-depth", "; ".join(sorted(set(probs))[:3]), where)
+        else:
+            chk.ok("R08.5", "owed `)` falls due exactly when the depth returns to (depth after the comma) - 1", "record %s, depth %s" % (names[S], names[D]), where)
+    else:
+        chk.note("R08.5 not decided: the record is not of the form (running depth, stack of due depths): guards %s, consumed %s" % (gnames, sorted(names[L] for L in consumed_vars)))
+
+    # ---- R08.6 owner search
+    ob = fb.bodies.get(owner)
+    if ob is None:
+        chk.violation("R08.6", "anchor", "owner search body not found")
+        return
+
+    class PO(_P):
+        pass
+    ps = [p for p in Interp(fb, PO()).run(ob, [Sym("toks")]) if p.status != "unreachable"]
+    somes = [p for p in ps if p.status == "return" and isinstance(p.result, Variant) and p.result.variant == "Some"]
+    good = len(ps) == 2 and len(somes) == 1
+    why = "shape"
+    if good:
+        r = rel.cstr(somes[0].result.fields["0"])
+        m = re.match(r"^binop:Sub\(binop:Sub\(core::slice::<impl \[T\]>::len\(toks\), 1_usize\), \.0\(\.0\(as:Some\((std::iter::Iterator::find\(.*\))\)\)\)\)$", r)
+        good = m is not None
+        why = "index conversion is %s" % r[:100]
+        if good:
+            f = m.group(1)
+            REV = r"std::iter::Iterator::rev\(core::slice::<impl \[T\]>::iter\(toks\)\)"
+            m2 = re.match(r"^std::iter::Iterator::find\(std::iter::Iterator::enumerate\(std::iter::Iterator::zip\(%s, std::iter::Iterator::scan\(%s, 0_i32, closure<\{closure#(\d+)\}>\)\)\), closure<\{closure#(\d+)\}>\)$" % (REV, REV), f)
+            good = m2 is not None
+            why = "search is %s" % f[:140]
+            if good:
+                sc = fb.bodies.get("%s::{closure#%s}" % (owner, m2.group(1)))
+                pc = fb.bodies.get("%s::{closure#%s}" % (owner, m2.group(2)))
+                # running count: +1 `(`, -1 `)`, 0 otherwise, yielded after the update
+                deltas = {}
+                for nm, tok in (("open", Variant(TOK, "Paren", {"0": Variant("parser::Paren", "Open", {})})), ("close", Variant(TOK, "Paren", {"0": Variant("parser::Paren", "Close", {})})),
+                                ("num", Variant(TOK, "Num", {"0": Sym("n")})), ("var", Variant(TOK, "Var", {"0": Sym("v")})), ("op", Variant(TOK, "Op", {"0": Sym("o")}))):
+                    qs = [q for q in Interp(fb, PO()).run(sc, [Sym("env"), Sym("state"), tok]) if q.status == "return"]
+                    wr = [e for q in qs for e in q.events if e[0] == "write_opaque"]
+                    res = [rel.cstr(q.result) for q in qs]
+                    deltas[nm] = (rel.cstr(wr[0][3]) if len(wr) == 1 else "?", res[0] if len(res) == 1 else "?")
+                want = {"open": "binop:Add(state, 1_i32)", "close": "binop:Add(state, -1_i32)", "num": "binop:Add(state, 0_i32)", "var": "binop:Add(state, 0_i32)", "op": "binop:Add(state, 0_i32)"}
+                for nm, (w_, r_) in deltas.items():
+                    if w_ != want[nm] or r_ != "Option::Some{0: %s}" % want[nm]:
+                        good = False
+                        why = "running count for a %s token: state := %s, yields %s" % (nm, w_, r_)
+                if good:
+                    # predicate: operator token at running count 1
+                    verdicts = {}
+                    for nm, tok in (("op", Variant(TOK, "Op", {"0": Sym("o")})), ("num", Variant(TOK, "Num", {"0": Sym("n")})), ("open", Variant(TOK, "Paren", {"0": Variant("parser::Paren", "Open", {})}))):
+                        qs = [q for q in Interp(fb, PO()).run(pc, [Sym("env"), Tup([Sym("i"), Tup([tok, Sym("cnt")])])]) if q.status == "return"]
+                        verdicts[nm] = sorted((rel.cstr(q.result), tuple((rel.cstr(d[1]), str(d[2])) for d in q.decisions)) for q in qs)
+                    op_ok = verdicts["op"] == sorted([("true", (("binop:Eq(cnt, 1_i32)", "True"),)), ("false", (("binop:Eq(cnt, 1_i32)", "False"),))])
+                    rest_ok = all(all(v[0] == "false" for v in verdicts[k]) and verdicts[k] for k in ("num", "open"))
+                    if not (op_ok and rest_ok):
+                        good = False
+                        why = "predicate verdicts %s" % {k: v[:2] for k, v in verdicts.items()}
+    if good:
+        chk.ok("R08.6", "owner search: first operator at running paren count 1, scanning backwards", "", loc(ob["span"]))
+    else:
+        chk.violation("R08.6", "owner-search", "the owner search is not `scan backwards, +1 per '(' and -1 per ')', first operator token at count 1, index = len - 1 - reversed index`: %s" % why, loc(ob["span"]))
